@@ -43,11 +43,12 @@ import (
 )
 
 const (
-	PD       = 10000 // price denominator: prices are logged as price*PD
-	signalID = "CS:BAND-USD"
-	groupT   = 2
-	poorBal  = 300
-	bigGas   = 5_000_000
+	PD         = 10000 // price denominator: prices are logged as price*PD
+	signalID   = "CS:BAND-USD"
+	otherDenom = "uabc" // sorts before "uband"
+	groupT     = 2
+	poorBal    = 300
+	bigGas     = 5_000_000
 )
 
 type Stats struct {
@@ -121,6 +122,8 @@ type session struct {
 	sawFree     bool
 	sawRefFee   bool
 	minp, locp  int64
+	locq        int64
+	lastProj    tf.M
 	genesisUnix int64
 }
 
@@ -131,6 +134,7 @@ func (d *Driver) newSession(sc tf.Script) *session {
 	s := &session{d: d, sc: sc, acc: map[string]world.Account{}, name: map[string]string{}, des: map[string]tsskit.DE{}}
 	s.minp = int64(tf.Int(sc.C, "minp", 25))
 	s.locp = int64(tf.Int(sc.C, "localp", 0))
+	s.locq = int64(tf.Int(sc.C, "localq", 0)) // node price in a denom the global fee does not list (opt-in: mode multidenom)
 	exp := tf.Int(sc.C, "exp", 4)
 	cooldown := tf.Int(sc.C, "cooldown", 2)
 	maxDE := tf.Int(sc.C, "maxde", 4)
@@ -140,6 +144,9 @@ func (d *Driver) newSession(sc tf.Script) *session {
 
 	wc := world.DefaultConfig()
 	wc.NumAccounts = 9
+	if s.locq > 0 {
+		wc.ExtraDenoms = []string{otherDenom}
+	}
 	roles := []string{"m1", "m2", "m3", "g1", "g2", "x1", "p1", "rq", "sp"}
 	accts := make([]world.Account, wc.NumAccounts)
 	for i := range accts {
@@ -215,8 +222,15 @@ func (d *Driver) newSession(sc tf.Script) *session {
 	}
 	sort.Strings(s.all)
 	// the node's own min-gas-prices (app.toml `minimum-gas-prices`): picked up by the check state at the next Commit
+	var node []string
+	if s.locq > 0 {
+		node = append(node, sdkmath.LegacyNewDecWithPrec(s.locq, 4).String()+otherDenom)
+	}
 	if s.locp > 0 {
-		baseapp.SetMinGasPrices(sdkmath.LegacyNewDecWithPrec(s.locp, 4).String() + "uband")(s.w.App.BaseApp)
+		node = append(node, sdkmath.LegacyNewDecWithPrec(s.locp, 4).String()+"uband")
+	}
+	if len(node) > 0 {
+		baseapp.SetMinGasPrices(strings.Join(node, ","))(s.w.App.BaseApp)
 	}
 	s.c = s.w.L2()
 	for i, v := range s.w.Vals {
@@ -406,6 +420,7 @@ func (s *session) project(ctx sdk.Context) (out tf.M) {
 	mp := app.GlobalFeeKeeper.GetParams(ctx).MinimumGasPrices.AmountOf("uband")
 	out["minp"] = mp.MulInt64(PD).TruncateInt64()
 	out["localp"] = s.checkCtx().MinGasPrices().AmountOf("uband").MulInt64(PD).TruncateInt64()
+	out["localq"] = s.checkCtx().MinGasPrices().AmountOf(otherDenom).MulInt64(PD).TruncateInt64()
 
 	bonded, active, cool := []string{}, []string{}, []string{}
 	fp := app.FeedsKeeper.GetParams(ctx)
@@ -541,6 +556,79 @@ func (s *session) project(ctx sdk.Context) (out tf.M) {
 		}
 	}
 	out["dkg"] = dk
+	s.lastProj = out
+	return out
+}
+
+// facts lists, for a human reading a replay, what the recorded state BEFORE the tx says about every leaf
+// and every grant link of the tx (informational: the spec evaluates the same on its own variables).
+func (s *session) facts(descs []tf.M) []string {
+	st := s.lastProj
+	if st == nil {
+		return nil
+	}
+	has := func(list interface{}, n string) bool {
+		if xs, ok := list.([]string); ok {
+			for _, x := range xs {
+				if x == n {
+					return true
+				}
+			}
+		}
+		return false
+	}
+	granted := func(granter, grantee, k string) bool {
+		if gs, ok := st["grants"].([]tf.M); ok {
+			for _, g := range gs {
+				if g["granter"] == granter && g["grantee"] == grantee && g["k"] == k {
+					return true
+				}
+			}
+		}
+		return false
+	}
+	var out []string
+	var walk func(d tf.M)
+	walk = func(d tf.M) {
+		k, who := fmt.Sprint(d["k"]), fmt.Sprint(d["who"])
+		id, _ := d["id"].(int)
+		switch k {
+		case "exec":
+			for _, in := range d["inner"].([]tf.M) {
+				out = append(out, fmt.Sprintf("grant %s->%s for %s: %v", in["who"], who, in["k"], granted(fmt.Sprint(in["who"]), who, fmt.Sprint(in["k"]))))
+				walk(in)
+			}
+		case "report":
+			f := fmt.Sprintf("report %s #%d: request absent", who, id)
+			if reqs, ok := st["req"].([]tf.M); ok && id >= 1 && id <= len(reqs) && reqs[id-1]["present"] == true {
+				f = fmt.Sprintf("report %s #%d: open, chosen=%v, reported=%v", who, id, has(reqs[id-1]["vals"], who), has(reqs[id-1]["rep"], who))
+			}
+			out = append(out, f)
+		case "price":
+			out = append(out, fmt.Sprintf("price %s: bonded=%v active=%v cooldown=%v feed=%v", who, has(st["bonded"], who), has(st["active"], who), has(st["cool"], who), st["feedOn"]))
+		case "sig":
+			f := fmt.Sprintf("sig %s #%d: no such signing", who, id)
+			if sgs, ok := st["sgn"].([]tf.M); ok && id >= 1 && id <= len(sgs) {
+				f = fmt.Sprintf("sig %s #%d: waiting=%v assigned=%v signed=%v", who, id, sgs[id-1]["waiting"], has(sgs[id-1]["assigned"], who), has(sgs[id-1]["signed"], who))
+			}
+			out = append(out, f)
+		case "de":
+			room := interface{}("?")
+			if r, ok := st["room"].(tf.M); ok {
+				room = r[who]
+			}
+			out = append(out, fmt.Sprintf("de %s: member=%v room=%v", who, has(st["members"], who), room))
+		case "dkg1":
+			if dk, ok := st["dkg"].(tf.M); ok {
+				out = append(out, fmt.Sprintf("dkg1 %s: round1=%v member=%v submitted=%v", who, dk["round1"], has(dk["mem"], who), has(dk["done"], who)))
+			}
+		default:
+			out = append(out, fmt.Sprintf("%s %s: paying kind", k, who))
+		}
+	}
+	for _, d := range descs {
+		walk(d)
+	}
 	return out
 }
 
@@ -910,13 +998,29 @@ func (s *session) stepTx(step tf.M) {
 	if fee < 0 {
 		fee = 0
 	}
+	// a fee offered in the node's other denom (only in mode multidenom)
+	var fee2 int64
+	need2 := (gas*s.locq + PD - 1) / PD
+	switch tf.Str(step, "fee2", "zero") {
+	case "at":
+		fee2 = need2
+	case "below":
+		fee2 = need2 - 1
+	}
+	if fee2 < 0 {
+		fee2 = 0
+	}
 	a := s.acc[signer]
 	cctx := s.checkCtx()
 	cb := s.app().BankKeeper.GetBalance(cctx, a.Addr, "uband").Amount.Int64()
 	if cb > 2_000_000_000 {
 		cb = 2_000_000_000
 	}
-	bz, err := s.signTx(a, s.checkSeq(a), uint64(gas), uband(fee), msgs...)
+	coins := uband(fee)
+	if fee2 > 0 {
+		coins = coins.Add(sdk.NewInt64Coin(otherDenom, fee2))
+	}
+	bz, err := s.signTx(a, s.checkSeq(a), uint64(gas), coins, msgs...)
 	if err != nil {
 		panic(err)
 	}
@@ -942,9 +1046,10 @@ func (s *session) stepTx(step tf.M) {
 	if len(detail) > 160 {
 		detail = detail[:160]
 	}
-	args := tf.M{"signer": signer, "msgs": descs, "fee": fee, "gas": gas, "cb": cb, "need": need}
-	if t := tf.Str(step, "tag", ""); t != "" {
-		args["tag"] = t
+	args := tf.M{"signer": signer, "msgs": descs, "fee": fee, "gas": gas, "cb": cb, "need": need, "facts": s.facts(descs)}
+	if s.locq > 0 {
+		// input-derived tag (DESIGN 2.4): the node has a price in a denom the global fee does not list
+		args["fee2"], args["need2"], args["tag"] = fee2, need2, "node-price-other-denom"
 	}
 	s.d.W.Step("Check", args, tf.M{"ok": cls == "acc", "cls": cls, "code": code, "space": space, "log": detail}, s.project(s.checkCtx()))
 	s.d.St.Txs++
